@@ -17,7 +17,7 @@ import itertools
 
 DEFAULT_FEAT = dict(
     subtypes=True, constants=True, neg=True, equality=True, numeric=True, when=True, forall_eff=True,
-    or_pre=False, forall_pre=False, bare_pre=False, nested_numeric=False, nested_cond=False, join_names=False, tiny_offsets=False, dense_quant=False, implicit_parent_types=False,   # nested / quantified / unwrapped preconditions
+    or_pre=False, forall_pre=False, bare_pre=False, nested_numeric=False, nested_cond=False, join_names=False, tiny_offsets=False, dense_quant=False, implicit_parent_types=False, many_constants=False,   # nested / quantified / unwrapped preconditions
     cond_numeric=True,                       # numeric comparisons inside when/forall conditions
     child_first_types=False,                 # D10 finding profile
     repeated_call_objects=True, long_names=False,
@@ -63,6 +63,14 @@ def gen_domain(t, feat=None, multi_agent=False):
         knames = t.shuffle(["k0", "k1", "k-2", "k_3", "k10"])
         for i in range(1 + t.draw(2)):
             D["constants"][knames[i]] = t.pick(names)
+    if f.get("many_constants"):
+        # a wide vocabulary: a dozen or more constants of one type with ordinary hyphenated names (an exported
+        # ':constants' group of several hundred characters)
+        w1 = ["main", "north", "south", "east", "west", "upper", "lower", "old", "new", "far"]
+        w2 = ["hall", "gate", "dock", "yard", "room", "lab", "shed", "pier"]
+        ty = t.pick(names)
+        for nm in t.shuffle([f"{a}-{b}" for a in w1 for b in w2])[:12 + t.draw(20)]:
+            D["constants"][nm] = ty if t.draw(6) else t.pick(names)
     preds = {}
     pnames = t.shuffle(["p0", "p1", "p-2", "p_3", "pp", "p10"])
     for i in range(1 + t.draw(f["max_preds"])):
@@ -523,14 +531,22 @@ def type_decl_order(D, child_first=False, t=None):
     return order
 
 
-def render_domain(D, child_first=False, requirements=(":typing",), decl_var="?v"):
+def render_domain(D, child_first=False, requirements=(":typing",), decl_var="?v", private=None):
+    """private: (list of predicate names, position) - those predicates are declared inside one '(:private ...)' group
+    (MA-PDDL) placed at that position among the other predicate declarations"""
     s = f"(define (domain {D['name']})\n(:requirements {' '.join(requirements)})\n"
     s += "(:types " + " ".join(f"{n} - {p}" for n, p in type_decl_order(D, child_first)) + ")\n"
     if D["constants"]:
         s += "(:constants " + " ".join(f"{n} - {p}" for n, p in D["constants"].items()) + ")\n"
-    s += "(:predicates " + " ".join(
-        "(" + p + (" " if sig else "") + r_sig([(f"{decl_var}{i}", ty) for i, ty in enumerate(sig)]) + ")"
-        for p, sig in D["predicates"].items()) + ")\n"
+    decl = {p: "(" + p + (" " if sig else "") + r_sig([(f"{decl_var}{i}", ty) for i, ty in enumerate(sig)]) + ")"
+            for p, sig in D["predicates"].items()}
+    if private and private[0]:
+        public = [decl[p] for p in decl if p not in private[0]]
+        group = "(:private " + " ".join(decl[p] for p in decl if p in private[0]) + ")"
+        at = min(private[1], len(public))
+        s += "(:predicates " + " ".join(public[:at] + [group] + public[at:]) + ")\n"
+    else:
+        s += "(:predicates " + " ".join(decl.values()) + ")\n"
     if D["functions"]:
         s += "(:functions " + " ".join(
             "(" + p + (" " if sig else "") + r_sig([(f"{decl_var}{i}", ty) for i, ty in enumerate(sig)]) + ")"
